@@ -5,7 +5,7 @@ import random
 
 import vlib
 
-PROPS = ("C01", "C02", "C04", "C11", "C13")
+PROPS = ("C01", "C02", "C04", "C11", "C13", "C14")
 
 _COMMON_NOTE = ("symbolic blobs/metadata/tag sets are concretised by harness/pdrv (one representative each); "
                 "SQLite metadata store only; TLC, the Go toolchain and SQLite are trusted; ETag values are checked by "
@@ -35,6 +35,14 @@ CHECKS = {
                     "changes and transitions.", "note": _COMMON_NOTE, "technique": _TECH},
 }
 
+CHECKS["C14"] = {
+    "text": "Transitions are an action of the Pithos model (label changes, everything else preserved); programs weighted "
+            "towards transitions, copies and dedup pairs run on the storage-class routed stack (GLACIER -> second filesystem "
+            "store, STANDARD_IA -> SQL store). After every call trace validation compares all versions with the model AND "
+            "checks PlacementOK: every part row of every version names the store its class maps to and the bytes are "
+            "physically present there (read from the parts table, the store directories and part_contents).",
+    "note": _COMMON_NOTE + "; remapping the class->store configuration between restarts is not exercised", "technique": _TECH}
+
 ALL_OPS = ["CreateBucket", "DeleteBucket", "PutVersioning", "PutObject", "GetObject", "DeleteObject", "CopyObject",
            "AppendObject", "CreateUpload", "UploadPart", "UploadPartCopy", "CompleteUpload", "AbortUpload", "PutTagging",
            "Transition"]
@@ -54,6 +62,11 @@ PLAN = {
     "C11": {"stacks_quick": ["fs"], "stacks_thorough": ["fs", "sql", "classes"],
             "ops": ["CreateBucket", "PutVersioning", "PutObject", "CopyObject", "AppendObject", "CreateUpload", "UploadPart",
                     "CompleteUpload", "PutTagging", "Transition", "DeleteObject"]},
+    "C14": {"stacks_quick": ["classes"], "stacks_thorough": ["classes"],
+            "gen": {"Classes": '{"none", "GLACIER", "STANDARD_IA"}', "Blobs": '{"c0", "c1", "c2", "c3"}', "MetaSets": '{"none", "1"}',
+                    "CTypes": '{"none", "t1"}'},
+            "ops": ["CreateBucket", "PutVersioning", "PutObject", "GetObject", "DeleteObject", "CopyObject", "AppendObject",
+                    "CreateUpload", "UploadPart", "UploadPartCopy", "CompleteUpload", "Transition", "Transition", "PutTagging"]},
     "C13": {"stacks_quick": ["fs"], "stacks_thorough": ["fs", "sql", "classes"],
             "gen": {"Buckets": '{"b1"}', "Keys": '{"k1", "k2"}', "Blobs": '{"c1", "c2", "c3"}', "MaxParts": "2"},
             "ops": ["CreateBucket", "PutVersioning", "PutObject", "DeleteObject", "CopyObject", "AppendObject", "CreateUpload",
@@ -245,7 +258,10 @@ def run(ctx):
     rnd = random.Random(ctx.seed)
     # 1. design-level model checking
     if not os.environ.get("VERIF_SKIP_MC"):  # debugging aid only
-        ctx.mc("PithosMC", "Pithos.MCver.cfg", timeout=1500, subst={"MaxClock": ctx.pick("6", "8")})
+        if ctx.prop in ("C11", "C13", "C14"):
+            ctx.mc("PithosMC", "Pithos.MCplace.cfg", timeout=1500, subst={"MaxClock": ctx.pick("4", "5")})
+        else:
+            ctx.mc("PithosMC", "Pithos.MCver.cfg", timeout=1500, subst={"MaxClock": ctx.pick("6", "8")})
     # 2. program generation from the model
     nprog = ctx.pick(40, 400)
     depth = ctx.pick(25, 40)
